@@ -1,7 +1,65 @@
 (* C02 — recorded handler progress governs invocation.  Function level: the State / HandlerState algebra and the
-   state pipeline of processing.process_changing_cause / subhandling.execute (Model/Progress.v).
+   state pipeline of processing.process_changing_cause / subhandling.execute (Model/Progress.v); the history level
+   (whole operator against an API server: Model/CycleWorld.v) is in Props/C02History.v and Props/C03.v.
    Only statements here; proofs are in Proofs/Progress.v.  All quantifiers are unbounded: every view (body records),
-   every registry (owned / selected ids), every cause, every lifecycle, every instant, every oracle of handler outcomes. *)
+   every registry (owned / selected ids), every cause, every lifecycle, every instant, every oracle of handler outcomes,
+   every nesting depth of sub-handlers, every sequence of calls.
+
+   CLAUSE TABLE (property text of C02 in properties.jsonl; "fn" = this file, "hist" = Props/C02History.v, Props/C03.v)
+   ------------------------------------------------------------------------------------------------------------------
+   1  a handler whose success / permanent failure is recorded on the object is never invoked again
+      1a within one call, every lifecycle ........ full: C02_finished_never_selected, C02_invoked_only_unfinished,
+                                                   C02_lifecycle_picks_from_input (fn)
+      1b sub-handlers, every depth ............... full: C02_sub_invoked_only_unfinished, C02_trace_only_unfinished (fn)
+      1c across retries of siblings / intervening events (several calls on the evolving object)
+                                                   _partial + _refuted: C02_no_rerun_across_calls (any sequence of calm
+                                                   calls: not closing, no supersession purge; handlers and sub-handlers of
+                                                   any depth) with C02_finished_stays_finished / C02_open_keeps_records_partial;
+                                                   refuted when the supersession purge runs: C02_open_keeps_records_refuted,
+                                                   C02_supersession_drops_subrecords = finding F0201.  The guard is exactly
+                                                   the negation of F0201's signature.  hist: C02_no_rerun_in_history,
+                                                   C02_history_invariant (top-level handlers, whole operator)
+      1d across operator restarts ................ full: C02_restart_resumes, C02_restart_resumes_view (fn: ResourceMemory is
+                                                   write-only; only the owned ids' records are read); hist: C02_history_invariant
+                                                   over traces with Kill/Start
+      1e the premise "is recorded": what an invocation did is on the object after the call
+                                                   full for open calls: C02_attempt_is_recorded (top level),
+                                                   C02_sub_attempt_is_recorded (the store call of subhandling.execute; its
+                                                   landing in the shared patch is tied by D progress_children / progress_runs,
+                                                   not proved: needs ids to be tree-shaped)
+   2  a handler still due is invoked with a retry number equal to its recorded attempts
+      2a the retry number ........................ full: C02_retry_is_recorded_retries, C02_trace_only_unfinished (every depth),
+                                                   C02_unowned_record_ignored (what happens outside the registry's guarantee)
+      2b "is invoked" ............................ full for all_at_once / one_by_one / asap: C02_due_is_invoked (all due ones /
+                                                   the first due one / a due one with the fewest attempts); randomized and
+                                                   shuffled only C02_lifecycle_picks_from_input (they pick by a random draw:
+                                                   monitored, monitor due-not-invoked)
+   3  the cycle is closed (records removed, last-handled written) exactly when every selected handler has finished
+      3a closed <-> all finished, not before ..... full: C02_close_iff_done, C02_idle_causes_do_nothing
+      3b records removed ......................... _partial + _refuted: C02_close_purges_partial, C02_close_leaves_nothing_partial
+                                                   / _deep (NOTHING remains, any depth) under the invariant
+                                                   C02_refs_closed_initially + C02_refs_closed_preserved;
+                                                   C02_close_leaves_nothing_refuted (invariant needed);
+                                                   C02_close_purges_refuted: with no handler selected the cycle is closed and the
+                                                   records stay (no finding recorded under C02; reproduced on the real code,
+                                                   reported to the coordinator; cf. F15)
+      3c children keep the parent open ........... full: C02_children_keep_parent_open, C02_children_purged_with_parent,
+                                                   C02_descendants_purged_with_ancestor, C02_subrefs_accumulate,
+                                                   C02_outcome_lists_all_descendants
+      3d supersession (cause changes mid-cycle) .. full, stated exactly: C02_supersession, C02_supersession_stale_success
+                                                   (what F8 rests on), C02_supersession_purges_unselected
+   4  hence every handler succeeds at most once per cycle (absent crashes, lost responses, echo delays, pauses)
+                                                   hist: C02_once_per_cycle, C03_served_exactly_once (top-level handlers, closed
+                                                   loop with the four exclusions as hypotheses); fn, incl. sub-handlers of any
+                                                   depth: consequence of 1c + 1e for calm call sequences (C02_no_rerun_across_calls);
+                                                   sub-handlers in the closed loop: monitored only (double-success in the
+                                                   function-level histories) — the history model has no sub-handlers
+   -  not an explicit clause, needed by all of the above: records equal to their origin are not rewritten
+                                                   C02_store_only_changed, C02_unchanged_iff_equal_to_origin; no Python error
+                                                   path is reachable: C02_pipeline_defined
+   Not covered by proof: lifecycles that are arbitrary user functions (kopf runs whatever they return; only those that
+   pick positions of their input are modelled); records not in the textual form kopf writes (naive timestamps, nulls
+   kept by verbose storages); float delays. *)
 From Coq Require Import ZArith List String Bool.
 From KV Require Import Base.Harness Model.Progress Proofs.Progress.
 Import ListNotations.
@@ -347,3 +405,151 @@ Print Assumptions C02_example_nested_three_levels.
 Example C02_example_descendant : pg_desc [] PRCreate LAll w_now w_fam3 (w_orc []) 5 "p" 0 "p/c/b/t".
 Proof. exact ex_nested_descendant. Qed.
 Print Assumptions C02_example_descendant.
+
+(* ---------------------------------------------------------------------------------------------------------------
+   Deepening round: the whole trace of a call, liveness, what gets recorded, and sequences of calls. *)
+
+(* clauses 1b / 2a for handlers and sub-handlers of EVERY depth in one statement *)
+Theorem C02_trace_only_unfinished : forall body owned reason selected lc now nd fuel fam leaf s m,
+  incl selected owned -> pg_quiet leaf -> pg_fam_wf fam ->
+  In (s, m) (pg_trace (pg_pipeline body owned reason selected lc now nd (pg_deep_oracle fuel body reason lc now fam leaf))) ->
+  pg_rec_finished (pg_find s body) = false /\
+  pg_rec_sleeping now (pg_find s body) = false /\
+  m = pg_rec_retries (pg_find s body).
+Proof. exact trace_only_unfinished. Qed.
+Print Assumptions C02_trace_only_unfinished.
+
+(* clause 2b: a handler still due IS invoked — all due ones (all_at_once), the first due one (one_by_one), a due one
+   with the fewest recorded attempts (asap); [pg_due] = selected, not recorded finished, recorded delay elapsed *)
+Theorem C02_due_is_invoked : forall body owned reason selected lc now nd orc,
+  pg_handler_reason reason = true -> incl selected owned ->
+  let ids := map fst (r_invoked (pg_pipeline body owned reason selected lc now nd orc)) in
+  let due := pg_due body selected now in
+  (lc = LAll -> ids = due) /\
+  (lc = LOne -> ids = firstn 1 due) /\
+  (lc = LAsap -> (due = [] /\ ids = []) \/
+                 exists k, ids = [k] /\ In k due /\
+                           forall k', In k' due -> pg_rec_retries (pg_find k body) <= pg_rec_retries (pg_find k' body)).
+Proof. exact due_is_invoked. Qed.
+Print Assumptions C02_due_is_invoked.
+
+Example C02_example_due_asap :
+  let body := [("a", w_retry "update"); ("b", mkPgRec (Some 990000000) None None (Some "update") (Some 0) (Some false) (Some false) None None);
+               ("c", w_done "update")] in
+  pg_due body ["a"; "b"; "c"] w_now = ["a"; "b"] /\
+  map fst (r_invoked (pg_pipeline body ["a"; "b"; "c"] PRUpdate ["a"; "b"; "c"] LAsap w_now true (w_orc []))) = ["b"].
+Proof. exact ex_due_asap. Qed.
+Print Assumptions C02_example_due_asap.
+
+(* clause 1e: after a call that leaves the cycle open, the record of every invoked handler says what happened:
+   attempts + 1, success / failure as the outcome was final with / without an exception, the new delay, the message,
+   and every sub-handler reference the outcome lists *)
+Theorem C02_attempt_is_recorded : forall body owned reason selected lc now nd orc k n,
+  pg_handler_reason reason = true -> selected <> [] ->
+  let r := pg_pipeline body owned reason selected lc now nd orc in
+  r_done r = Some false ->
+  In (k, n) (r_invoked r) ->
+  let o := fst (orc k n) in
+  exists d, pg_after body (r_patch r) k = Some d /\
+            s_retries d = Some (n + 1) /\
+            s_success d = Some (o_final o && match o_exc o with None => true | Some _ => false end) /\
+            s_failure d = Some (o_final o && match o_exc o with None => false | Some _ => true end) /\
+            s_delayed d = match o_delay o with Some x => Some (now + x) | None => None end /\
+            s_message d = o_exc o /\
+            pg_rec_finished (Some d) = o_final o /\
+            (forall s, In s (o_subrefs o) -> In s (pg_or (s_subrefs d) [])).
+Proof. exact attempt_is_recorded. Qed.
+Print Assumptions C02_attempt_is_recorded.
+
+Theorem C02_sub_attempt_is_recorded : forall body reason so ss lc now orc c m,
+  let sr := pg_sub_execute body reason so ss lc now orc in
+  In (c, m) (sr_invoked sr) ->
+  exists d, In (c, d) (sr_stores sr) /\ s_retries d = Some (m + 1) /\
+            pg_rec_finished (Some d) = o_final (fst (orc c m)) /\
+            s_success d = Some (o_final (fst (orc c m)) && match o_exc (fst (orc c m)) with None => true | Some _ => false end).
+Proof. exact sub_attempt_is_recorded. Qed.
+Print Assumptions C02_sub_attempt_is_recorded.
+
+(* clause 1c, one call: whatever is recorded as finished — handler or sub-handler of any depth — is still recorded as
+   finished after a call that neither closes the cycle nor runs the supersession purge (otherwise: F0201) *)
+Theorem C02_finished_stays_finished : forall body owned reason selected lc now nd orc,
+  incl selected owned -> pg_keeps_finished body orc ->
+  let r := pg_pipeline body owned reason selected lc now nd orc in
+  r_done r <> Some true ->
+  (pg_handler_reason reason = true -> pg_has_extras (pg_prepare body owned reason selected now) = false) ->
+  forall s, pg_rec_finished (pg_find s body) = true -> pg_rec_finished (pg_after body (r_patch r) s) = true.
+Proof. exact finished_stays_finished. Qed.
+Print Assumptions C02_finished_stays_finished.
+
+(* the next call's view is the object after the patch *)
+Theorem C02_next_view : forall body p s, pg_find s (pg_apply body p) = pg_after body p s.
+Proof. exact pg_find_apply. Qed.
+Print Assumptions C02_next_view.
+
+(* clause 1c / 4, any number of calls: across sibling retries and intervening events (any causes, selections, lifecycles,
+   instants — a restart changes nothing: C02_restart_resumes), an id recorded as finished is in no trace of any later
+   calm call, and stays recorded as finished *)
+Theorem C02_no_rerun_across_calls : forall owned calls body s,
+  (forall c, In c calls -> incl (c_selected c) owned /\ pg_orc_ok c) ->
+  pg_all_calm owned body calls ->
+  pg_rec_finished (pg_find s body) = true ->
+  (forall r, In r (fst (pg_run_calls owned body calls)) -> ~ In s (map fst (pg_trace r))) /\
+  pg_rec_finished (pg_find s (snd (pg_run_calls owned body calls))) = true.
+Proof. exact no_rerun_across_calls. Qed.
+Print Assumptions C02_no_rerun_across_calls.
+
+(* handlers with sub-handlers nested to any depth are such behaviours *)
+Theorem C02_deep_orc_ok : forall reason selected lc now nd fuel fam leaf,
+  pg_quiet leaf -> pg_fam_wf fam ->
+  pg_orc_ok (mkPgCall reason selected lc now nd (fun b => pg_deep_oracle fuel b reason lc now fam leaf)).
+Proof. exact deep_orc_ok. Qed.
+Print Assumptions C02_deep_orc_ok.
+
+Theorem C02_deep_keeps_finished : forall body reason lc now fam leaf,
+  pg_quiet leaf -> pg_fam_wf fam -> forall fuel, pg_keeps_finished body (pg_deep_oracle fuel body reason lc now fam leaf).
+Proof. exact deep_keeps_finished. Qed.
+Print Assumptions C02_deep_keeps_finished.
+
+(* non-vacuity: two calm calls with a retrying twig three levels down; the hypotheses of C02_no_rerun_across_calls hold
+   (w_fam3 is well-formed, the calls are calm) and the conclusion is visible in the traces *)
+Example C02_example_two_calls :
+  let calls := [w_call w_now ["p/c/b/t"]; w_call (w_now + 2000000) ["p/c/b/t"]] in
+  let run := pg_run_calls ["a"; "p"] [] calls in
+  map pg_trace (fst run) =
+    [[("a", 0); ("p", 0); ("p/c", 0); ("p/c/a", 0); ("p/c/b", 0); ("p/c/b/t", 0); ("p/o", 0)];
+     [("p", 1); ("p/c", 1); ("p/c/b", 1); ("p/c/b/t", 1)]] /\
+  pg_rec_finished (pg_find "a" (snd run)) = true /\ pg_rec_finished (pg_find "p/c/a" (snd run)) = true /\
+  pg_rec_finished (pg_find "p/c/b" (snd run)) = false /\
+  pg_rec_retries (pg_find "p/c/b/t" (snd run)) = 2.
+Proof. exact ex_two_calls. Qed.
+Print Assumptions C02_example_two_calls.
+
+Example C02_example_two_calls_calm :
+  pg_all_calm ["a"; "p"] [] [w_call w_now ["p/c/b/t"]; w_call (w_now + 2000000) ["p/c/b/t"]] /\ pg_fam_wf w_fam3.
+Proof. exact (conj ex_two_calls_calm w_fam3_wf). Qed.
+Print Assumptions C02_example_two_calls_calm.
+
+(* further non-vacuity instances (hypotheses of the implications above are satisfiable on non-trivial states) *)
+Example C02_example_open_cycle_keeps_progress :
+  let body := [("a", w_done "update"); ("b", w_retry "update")] in
+  let r := pg_pipeline body ["a"; "b"] PRUpdate ["a"; "b"] LAsap w_now true (w_orc ["b"]) in
+  r_invoked r = [("b", 1)] /\ r_done r = Some false /\ r_fho r = false /\ r_diffbase r = false /\
+  pg_after body (r_patch r) "a" = Some (w_done "update") /\ pg_find "a" (r_patch r) = None /\
+  r_delays r = [1000000] /\
+  option_map s_retries (pg_after body (r_patch r) "b") = Some (Some 2).
+Proof. exact ex_open_cycle_keeps_progress. Qed.
+Print Assumptions C02_example_open_cycle_keeps_progress.
+
+Example C02_example_sleeping_not_invoked :
+  let body := [("b", mkPgRec (Some 990000000) None (Some (w_now + 125000)) (Some "update") (Some 1) (Some false) (Some false) None None)] in
+  let r := pg_pipeline body ["b"] PRUpdate ["b"] LAll w_now true (w_orc []) in
+  r_invoked r = [] /\ r_done r = Some false /\ r_delays r = [125000] /\ r_patch r = [].
+Proof. exact ex_sleeping_not_invoked. Qed.
+Print Assumptions C02_example_sleeping_not_invoked.
+
+Example C02_example_supersession_hypotheses :
+  pg_has_extras (pg_prepare1 [("a", w_done "update"); ("b", w_retry "update")] ["a"; "b"; "d"] PRDelete ["a"; "d"] w_now) = true /\
+  pg_has_extras (pg_prepare [("a", w_done "update"); ("b", w_retry "update")] ["a"; "b"; "d"] PRDelete ["a"; "d"] w_now) = true /\
+  pg_changed (pg_hs_from_storage w_now (w_retry "update")) = false.
+Proof. exact ex_supersession_hypotheses_satisfiable. Qed.
+Print Assumptions C02_example_supersession_hypotheses.
